@@ -316,3 +316,16 @@ package providers
 //@   loop 1
 //@     invariant memberSet != nil
 //@     invariant forall m string {m in memberSet} :: (m in memberSet) <==> (exists i :: 0 <= i && i < $i && L[i] == m)
+
+// ---- C09: "valid" means the provider just said so ------------------------------------------------------------------
+//@ func (p *GoogleProvider) ValidateSessionState(s *sessions.SessionState) bool
+//@   modifies clock
+//@   ensures [C09] valid_only_when_the_provider_answered_ok: result ==> old(s.AccessToken) != "" && called(@googleRequest#1) && @googleRequest#1 == nil && called(@String#1) && arg(@googleRequest#1, 2) == @String#1 && formGet(arg(@googleRequest#1, 3), "access_token") == old(s.AccessToken)
+
+//@ func (p *OktaProvider) ValidateSessionState(s *sessions.SessionState) bool
+//@   modifies clock
+//@   ensures [C09] valid_only_when_the_provider_says_active: result ==> old(s.AccessToken) != "" && called(@oktaRequest#1) && @oktaRequest#1 == nil && local("response").Active
+
+//@ func (p *AmazonCognitoProvider) ValidateSessionState(s *sessions.SessionState) bool
+//@   modifies clock
+//@   ensures [C09] valid_only_when_the_profile_call_succeeded: result ==> old(s.AccessToken) != "" && called(@GetUserProfile#1) && @GetUserProfile#1.1 == nil && arg(@GetUserProfile#1, 1) == old(s.AccessToken)
